@@ -95,6 +95,9 @@ Prog(cfg) ==
     \* END becomes ready holding no value and yields its placeholder: the OUTPUT type's zero value / a one-chunk stream of it
     [] cfg.shape \in {"eskw", "eskg"} -> NodeUnits(cfg, N[1]) \o <<[op |-> "branch"]>> \o NodeUnits(cfg, NodeByName(cfg, cfg.pick))
                                          \o (IF cfg.pick = "b" THEN <<[op |-> "outkey", k |-> "b"]>> ELSE <<[op |-> "nodata"]>>)
+    \* fan-out then fan-in without output keys: a's map stream is COPIED to the consumers d and e; d merges it with b's single keyed
+    \* value, e with c's (stream mode: mergeValues over the stream copies; array-backed sources are folded into one array)
+    [] cfg.shape = "fofi" -> <<[op |-> "fofi", p |-> Unit(N[1].n, Range(N[1].nat), N[1].oc, ""), q |-> <<N[2], N[3]>>, c |-> <<N[4], N[5]>>]>>
     [] cfg.shape = "branch" -> NodeUnits(cfg, N[1]) \o <<[op |-> "branch"]>> \o NodeUnits(cfg, NodeByName(cfg, cfg.pick))
     [] cfg.shape = "keys" -> IF Len(N) = 1 THEN <<[op |-> "inkey", k |-> "x"]>> \o NodeUnits(cfg, N[1]) \o <<[op |-> "outkey", k |-> "out"]>>
                              ELSE <<[op |-> "inkey", k |-> "x"]>> \o NodeUnits(cfg, N[1]) \o <<[op |-> "outkey", k |-> "mid"], [op |-> "inkey", k |-> "mid"]>>
@@ -183,7 +186,13 @@ StepV(e, x, Fx) ==
          \* a nil interface value is an ordinary value of an interface-typed edge: boxed into `any` it is the zero value of the
          \* declared type again at the next node, at a branch and as the graph's result (written "")
          [] e.op = "nilsrc" -> IF e.fail # "" THEN ValFail("node-failure") ELSE ValOK(Bare(""))
-         [] e.op = "nodata" -> ValOK(<<>>)                              \* dagChannel's zero value of the graph's output type
+         [] e.op = "nodata" -> ValOK(<<>>)
+         [] e.op = "fofi" ->
+              LET pm == MapInvoke(e.p, x.m[""])
+                  side(i) == LET qu == Unit(e.q[i].n, Range(e.q[i].nat), e.q[i].oc, "")
+                                 m == pm @@ (qu.n :> UnitInvoke(qu, x.m[""]))                       \* mergeMap of the two predecessors' maps
+                             IN Rendered(qu.n, m[qu.n], m["x"], m["y"]) \o e.c[i].n                  \* every native form of a consumer renders the whole map
+              IN ValOK((e.c[1].n :> side(1)) @@ (e.c[2].n :> side(2)))                              \* dagChannel's zero value of the graph's output type
          [] e.op = "inkey" -> IF e.k \in DOMAIN x.m THEN ValOK(Bare(x.m[e.k])) ELSE ValFail("cannot find input key")
          [] e.op = "outkey" -> ValOK((e.k :> x.m[""]))
          [] e.op = "par" ->
@@ -205,7 +214,13 @@ StepS(e, x, Fx) ==
          [] e.op = "branch" -> x
          [] e.op = "nilsrc" -> IF e.fail # "" THEN StrFail("node-failure")
                                ELSE StrOK(Wrap("", IF FormUsed(e, TRUE) \in {"T", "S"} THEN [i \in 1..e.oc |-> ""] ELSE <<"">>))   \* oc nil chunks / one boxed nil
-         [] e.op = "nodata" -> StrOK(<< <<>> >>)                        \* ... resp. its empty stream: one chunk holding that zero value
+         [] e.op = "nodata" -> StrOK(<< <<>> >>)
+         [] e.op = "fofi" ->
+              LET ps == MapTransform(e.p, Strs(x.cs))                                              \* one stream, copied to both consumers
+                  side(i) == LET qu == Unit(e.q[i].n, Range(e.q[i].nat), e.q[i].oc, "")
+                                 m == ConcatChunks(ps \o Wrap(qu.n, UnitTransform(qu, Strs(x.cs))))   \* each consumer: its own copy + its own q
+                             IN Rendered(qu.n, m[qu.n], m["x"], m["y"]) \o e.c[i].n
+              IN StrOK(<<(e.c[1].n :> side(1)), (e.c[2].n :> side(2))>>)                        \* ... resp. its empty stream: one chunk holding that zero value
          [] e.op = "inkey" -> LET sel == SelectSeq(x.cs, LAMBDA c : e.k \in DOMAIN c)          \* chunks without the key are skipped
                               IN StrOK([i \in 1..Len(sel) |-> Bare(sel[i][e.k])])
          [] e.op = "outkey" -> StrOK(Wrap(e.k, Strs(x.cs)))                                   \* withKey on every chunk
@@ -231,7 +246,7 @@ vars == <<cfg, phase, pos, acc>>
 
 NoFail == [n |-> "", how |-> ""]
 EmptyCfg == [shape |-> "", nodes |-> <<>>, in |-> <<>>, dup |-> FALSE, pick |-> "", bstrm |-> FALSE, z |-> FALSE, fail |-> NoFail, anyout |-> FALSE]
-NodesWanted(sh) == CASE sh \in {"ebr", "eskw", "eskg"} -> {3} [] sh \in {"nil1", "nilin"} -> {1} [] sh \in {"nil2", "nilif"} -> {2} [] sh = "nilbr" -> {3} [] sh = "fank" -> 4..MaxNodes [] sh \in {"fmap", "nmap", "nmapn"} -> {2} [] sh = "chain" -> 1..MaxNodes [] sh = "nested" -> 2..MaxNodes [] sh = "fan2" -> {2} [] sh = "fan3" -> {3}
+NodesWanted(sh) == CASE sh = "fofi" -> {5} [] sh \in {"ebr", "eskw", "eskg"} -> {3} [] sh \in {"nil1", "nilin"} -> {1} [] sh \in {"nil2", "nilif"} -> {2} [] sh = "nilbr" -> {3} [] sh = "fank" -> 4..MaxNodes [] sh \in {"fmap", "nmap", "nmapn"} -> {2} [] sh = "chain" -> 1..MaxNodes [] sh = "nested" -> 2..MaxNodes [] sh = "fan2" -> {2} [] sh = "fan3" -> {3}
                      [] sh = "branch" -> {3} [] sh = "keys" -> 1..(IF MaxNodes > 2 THEN 2 ELSE MaxNodes)
 HandlerOK(sh) == sh \in {"chain"}
 Init == cfg = EmptyCfg /\ phase = "shape" /\ pos = 0 /\ acc = <<>>
@@ -247,6 +262,8 @@ AddNode(nat, oc, pre, post) ==
             idx == CHOOSE i \in 1..4 : Forms[i] = prev
         IN Cardinality(nat) = 1 /\ nat = {Forms[(idx % 4) + 1]})
   /\ (cfg.shape = "fank" => Cardinality(nat) = 1)
+  \* fofi: the producer a is free; the side inputs b, c and the consumers d, e are invoke-only or transform-only, one chunk
+  /\ (cfg.shape = "fofi" /\ Len(cfg.nodes) > 0 => nat \in {{"I"}, {"T"}} /\ oc = 1)
   /\ cfg' = [cfg EXCEPT !.nodes = Append(@, [n |-> Names[Len(cfg.nodes) + 1], nat |-> SetToSeq(nat), oc |-> oc, pre |-> pre, post |-> post])]
   /\ UNCHANGED <<phase, pos, acc>>
 Executed(c) == IF c.shape \in {"branch", "nilbr", "ebr", "eskw", "eskg"} THEN {"a", c.pick} ELSE {c.nodes[i].n : i \in 1..Len(c.nodes)}
@@ -296,7 +313,9 @@ LawHolds == phase = "done" => (Predicted = {} \/ (cfg.dup /\ Predicted = {"failu
 RECURSIVE FlatUnits(_)
 FlatUnits(p) == IF Len(p) = 0 THEN <<>>
                 ELSE (IF p[1].op = "unit" THEN <<p[1]>> ELSE IF p[1].op = "par" THEN FlattenSeq([i \in 1..Len(p[1].bs) |-> p[1].bs[i].us])
-                      ELSE IF p[1].op \in {"mapsrc", "join"} THEN <<p[1].u>> ELSE IF p[1].op = "nilsrc" THEN <<p[1]>> ELSE <<>>) \o FlatUnits(Tail(p))
+                      ELSE IF p[1].op \in {"mapsrc", "join"} THEN <<p[1].u>> ELSE IF p[1].op = "nilsrc" THEN <<p[1]>>
+                      ELSE IF p[1].op = "fofi" THEN <<p[1].p>> \o [i \in 1..2 |-> Unit(p[1].q[i].n, Range(p[1].q[i].nat), 1, "")] \o [i \in 1..2 |-> Unit(p[1].c[i].n, Range(p[1].c[i].nat), 1, "")]
+                      ELSE <<>>) \o FlatUnits(Tail(p))
 FormsOf(stream) == LET us == SelectSeq(FlatUnits(Prog(cfg)), LAMBDA u : u.n \notin {"(", ")"}) IN [i \in 1..Len(us) |-> us[i].n \o ":" \o FormUsed(us[i], stream)]
 Emit == phase = "done" =>
   PrintT(<<"CASE", ToJson([shape |-> cfg.shape, nodes |-> cfg.nodes, in |-> cfg.in, dup |-> cfg.dup, pick |-> cfg.pick, bstrm |-> cfg.bstrm,
